@@ -77,8 +77,11 @@ namespace nmtools::index
             at(result,i) = idx;
         }
 
-        at(result,axis1) = at(indices,meta::ct_v<-1>);
-        at(result,axis2) = at(indices,meta::ct_v<-1>) + offset;
+        // a positive offset starts the diagonal at column `offset`, a negative one at row `-offset`
+        nm_index_t diag_idx = at(indices,meta::ct_v<-1>);
+        nm_index_t diag_off = offset;
+        at(result,axis1) = (diag_off < 0 ? diag_idx - diag_off : diag_idx);
+        at(result,axis2) = (diag_off > 0 ? diag_idx + diag_off : diag_idx);
 
         return result;
     }
